@@ -95,7 +95,7 @@ func cmdCheck(args []string) {
 		Seconds    float64 `json:"seconds"`
 		SMTSha     string  `json:"smt_sha256,omitempty"`
 	}
-	var samples []sample
+	samples := []sample{}
 	var violations []string
 	var knownLines []string
 	var unproved []string
